@@ -33,7 +33,8 @@ ID = 'C17'
 BUDGET = {'quick': 16 * 14, 'thorough': 16 * 220}        # state machines (histories)
 WALL = {'quick': 900, 'thorough': 5400}
 RULE = ('one case = one history: a fresh SQLite database file attached with '
-        '@AttachDatabase (alias logica_home; or alias vault + @Dataset("vault"), optionally '
+        '@AttachDatabase (alias logica_home; alias logica_test = the default SQLite dataset '
+        'when logica_home is not attached; or alias vault + @Dataset("vault"), optionally '
         'with logica_home attached to ":memory:" as well) and 2-3 variants of one generated '
         'program (typed core-fragment generator: 2-3 fact tables, 3-5 derived predicates '
         'with joins, disjunction, negation, aggregation, functional values, lists/records, '
@@ -41,7 +42,13 @@ RULE = ('one case = one history: a fresh SQLite database file attached with '
         'the same 1-3 intermediate predicate names (default table name, '
         '`@Ground(P, "<alias>.<name>")`, `overwrite: true`) and differ in facts (re-drawn '
         '/ duplicated / dropped), in rules (dropped rule / dropped filter) or are an '
-        'independent program over the same names; then up to 7 (thorough: 11) steps: '
+        'independent program over the same names; in ~45% of the histories 1-2 program '
+        'flags (@DefineFlag(name, default); some string literals of the rules and facts '
+        'carry a "${name}" reference as whole literal / prefix / suffix; variants may differ '
+        'in the defaults) and every run passes no user flag values or one of 1-2 drawn '
+        'assignments (--name=value on the logica.py command line, user_flags otherwise): '
+        'the reference value is that of the program with every ${name} replaced by the '
+        'effective value; then up to 7 (thorough: 11) steps: '
         'run(variant, predicate) = the statement list of `logica.py run` executed as '
         'RunSqlScript does on a fresh connection, or (1/3) the real `logica.py <file> '
         'run_to_csv <predicate>` executed in-process; run_many(variant, 2-3 predicates) = '
@@ -54,8 +61,9 @@ RULE = ('one case = one history: a fresh SQLite database file attached with '
         'every table in the file == model (tables of the grounded dependencies of the '
         "requested predicate(s) rewritten with the variant's value; a requested grounded "
         'predicate itself and all other tables untouched). Non-trivial = >= 2 runs and '
-        'either a run that overwrites a table last written by a different variant with '
-        'different contents, or an exact repeat of an earlier run step; distinct by hash '
+        'either a run that overwrites a table last written by a different variant or '
+        'under different flag values with different contents, or an exact repeat of an '
+        'earlier run step (same flag values); distinct by hash '
         'of (variant texts, steps).')
 ASSUMPTIONS = [
     'reference evaluator lv/ref.py is the oracle for predicate values',
@@ -68,6 +76,9 @@ ASSUMPTIONS = [
     'table names compared case-insensitively (SQLite identifiers)',
     'overwrite: false, @Ground(P, Q), copy_to_file and grounded predicates without rules '
     'are outside the stated domain and not generated',
+    'flags: only "${name}" inside string literals of rules/facts (not in annotations or '
+    'table names, no FlagValue, no flag referring to a flag: C10), values over [a-z0-9]; '
+    'the program a flag assignment denotes is the text with each reference replaced',
     'dialect-library parse memoised per process (filled by the real parser)']
 
 OPTS = dict(p_colnames=0.0, p_neg=0.15, p_agg=0.2, p_distinct=0.3, p_null_fact=0.03,
